@@ -48,6 +48,35 @@ impl HVal {
             other => other.clone(),
         }
     }
+    /// `canon` plus renumbering of process ids and refs by first appearance, so values from
+    /// environments with different histories compare equal.
+    /// Function values are opaque (a packaging step may bake captures into the function), so
+    /// they compare equal to any other function; behaviour is compared by calling them.
+    pub fn canon_ids(&self) -> HVal {
+        fn go(v: &HVal, procs: &mut Vec<usize>, refs: &mut Vec<u64>) -> HVal {
+            match v {
+                HVal::Tuple(n, f) => HVal::Tuple(n.clone(), f.iter().map(|(l, v)| (l.clone(), go(v, procs, refs))).collect()),
+                HVal::Fn(..) => HVal::Fn(0, vec![]),
+                HVal::Builtin(_) => HVal::Builtin(0),
+                HVal::Proc(p) => {
+                    let i = procs.iter().position(|x| x == p).unwrap_or_else(|| {
+                        procs.push(*p);
+                        procs.len() - 1
+                    });
+                    HVal::Proc(i)
+                }
+                HVal::Ref(r) => {
+                    let i = refs.iter().position(|x| x == r).unwrap_or_else(|| {
+                        refs.push(*r);
+                        refs.len() - 1
+                    });
+                    HVal::Ref(i as u64)
+                }
+                other => other.clone(),
+            }
+        }
+        go(self, &mut Vec::new(), &mut Vec::new())
+    }
     pub fn contains_bad(&self) -> bool {
         match self {
             HVal::BadTuple(..) | HVal::BadBinary(_) => true,
